@@ -358,13 +358,42 @@ Definition step19 (cf : pconf) (s : st19) (x : pop * list pevent) : option st19 
       end
   end.
 
+(* ... and the demand is never stopped while a reader is attached: the readers attached after a step are
+   read off the observations alone (an AddReader request answered with a stream attaches its reader, also when
+   the answer comes steps later, out of the hold list; RemoveReader and a Close() call of the reader detach it);
+   after every step in which the command / the source was stopped ("runOnDemand command stopped", the static
+   source's Stop) no reader is attached.  This covers the close-after timers (armed only without readers,
+   disarmed when a reader arrives), the start timeout, the source leaving and Close. *)
+Definition ev_step19r (qmap : list (Z * Z)) (acc : list Z * bool) (e : pevent) : list Z * bool :=
+  let '(att, stopped) := acc in
+  match e with
+  | EAnswer q (AStream _) =>
+      match lookup q qmap with
+      | Some r => (if memz r att then att else r :: att, stopped)
+      | None => acc
+      end
+  | EReaderClosed r => (remz r att, stopped)
+  | ELogStop HDemand | ESrcStop => (att, true)
+  | _ => acc
+  end.
+
+Fixpoint run19r (att : list Z) (qmap : list (Z * Z)) (steps : list (pop * list pevent)) : bool :=
+  match steps with
+  | [] => true
+  | (o, evs) :: r =>
+      let qmap' := match o with AddReader q rd => (q, rd) :: qmap | _ => qmap end in
+      let att0 := match o with RemoveReader rd => remz rd att | _ => att end in
+      let '(att1, stopped) := fold_left (ev_step19r qmap') evs (att0, false) in
+      (negb stopped || match att1 with [] => true | _ => false end) && run19r att1 qmap' r
+  end.
+
 Definition spec_fail_c19 (c : pcase) : bool :=
   match c with
   | PCase cf i _ steps0 =>
       let steps := evsteps steps0 in
       let d0 := has_ev ESrcStart i in
       match mrun (step19 cf) {| issued19 := []; answered19 := []; demand19 := d0; closed19 := false |} steps with
-      | Some _ => false
+      | Some _ => negb (run19r [] [] steps)
       | None => true
       end
   end.
